@@ -203,6 +203,16 @@ func ruleMARKERLOOPS(c *Ctx) {
 				}
 				lp := innermostLoop(loops, b)
 				if lp == nil {
+					// a marker test on one fixed position of a right-hand side (rhs[len-1], rhs[0]) looks
+					// at a marker where a symbol is meant
+					if len(call.Common().Args) > 0 {
+						if ld, ok := call.Common().Args[0].(*ssa.UnOp); ok && ld.Op == token.MUL {
+							if ia, ok := ld.X.(*ssa.IndexAddr); ok && strings.HasSuffix(vpath(ia.X), ".RHS") {
+								key := ordKey(ord, ssaFuncKey(f)+":marker-test-outside-loop")
+								c.Bad(rule, key, ifi.Pos(), "IsStateMarker is tested on the single position %s of a right-hand side, outside any loop: when that position holds a marker the symbols next to it are never looked at (markers are transparent, the scan has to step over them)", normalizePhi(vpath(ld.X)))
+							}
+						}
+					}
 					continue
 				}
 				n++
